@@ -16,6 +16,7 @@ package scrapligo
 
 import (
 	"fmt"
+	"time"
 
 	"github.com/beevik/etree"
 	scraplinetconf "github.com/scrapli/scrapligo/driver/netconf"
@@ -25,6 +26,9 @@ import (
 	"github.com/sdcio/data-server/pkg/config"
 	"github.com/sdcio/data-server/pkg/datastore/target/netconf/types"
 )
+
+// closeTimeout is the time Close waits for the driver to close the session
+const closeTimeout = 5 * time.Second
 
 type ScrapligoNetconfTarget struct {
 	driver *scraplinetconf.Driver
@@ -74,7 +78,19 @@ func (snt *ScrapligoNetconfTarget) Close() error {
 	if snt.driver == nil {
 		return nil
 	}
-	return snt.driver.Close()
+	// The driver's Close() hands a token to its read loop and blocks until the loop takes it. A loop that has
+	// ended already (session closed before) or that is stuck reporting a transport error nobody waits for
+	// (session lost) never takes it, so do not wait forever.
+	errCh := make(chan error, 1)
+	go func() {
+		errCh <- snt.driver.Close()
+	}()
+	select {
+	case err := <-errCh:
+		return err
+	case <-time.After(closeTimeout):
+		return fmt.Errorf("closing the netconf session timed out after %s", closeTimeout)
+	}
 }
 
 func (snt *ScrapligoNetconfTarget) IsAlive() bool {
